@@ -426,4 +426,168 @@ theorem tokenize_append_space_semi (o : Oracles) (q : List Char) :
   rw [tokenize_append_space, List.append_assoc] at this
   exact this
 
+/-! ### `End` is only ever the last token of the tokenizer's answer -/
+
+/-- no token of the state is `End` -/
+def NoEof (st : St) : Prop := ∀ t ∈ st.toks, t.tok ≠ .eof
+
+theorem noEof_of_toks {st st' : St} (h : NoEof st) (ht : st'.toks = st.toks) : NoEof st' := by
+  intro t hx; rw [ht] at hx; exact h t hx
+
+theorem add_noEof {st : St} (h : NoEof st) {t : Tok} (ht : t ≠ .eof) : NoEof (st.add t) := by
+  intro x hx
+  simp only [St.add, List.mem_cons] at hx
+  rcases hx with rfl | hx
+  · exact ht
+  · exact h x hx
+
+theorem setLast_noEof {st : St} (h : NoEof st) {t : Tok} (ht : t ≠ .eof) : NoEof (st.setLast t) := by
+  unfold St.setLast
+  split
+  · exact h
+  · rename_i p rest hp
+    intro x hx
+    simp only [List.mem_cons] at hx
+    rcases hx with rfl | hx
+    · exact ht
+    · exact h x (by rw [hp]; simp [hx])
+
+theorem noEof_ite {c : Prop} [Decidable c] {a b : St} (ha : NoEof a) (hb : NoEof b) : NoEof (if c then a else b) := by
+  split <;> assumption
+
+theorem operator_noEof {st : St} (h : NoEof st) (adj : Bool) (c : Char) : NoEof (operator st adj c) := by
+  have hadd : NoEof (addOp st c) := noEof_of_toks (add_noEof h (t := .op (.single c)) (by simp)) rfl
+  unfold operator
+  repeat' split
+  all_goals first | exact hadd | exact setLast_noEof h (by simp)
+
+theorem classify_noEof (o : Oracles) {st : St} (h : NoEof st) (adj : Bool) (c : Char) : NoEof (classify o st adj c) := by
+  unfold classify
+  dsimp only
+  repeat' with_reducible apply noEof_ite
+  all_goals first
+    | exact add_noEof h (by simp)
+    | exact operator_noEof h adj c
+    | exact h
+    | exact noEof_of_toks h rfl
+    | (split <;> first | exact setLast_noEof h (by simp) | exact add_noEof h (by simp))
+
+theorem body_noEof (o : Oracles) {st : St} (h : NoEof st) (c : Char) : NoEof (body o st c) := by
+  have h1 : NoEof (st.advance c).dashCheck := by
+    have ha : NoEof (st.advance c) := by unfold St.advance; split <;> exact noEof_of_toks h rfl
+    unfold St.dashCheck
+    split
+    · intro t ht; exact ha t (List.mem_of_mem_tail ht)
+    · exact ha
+  unfold body
+  dsimp only
+  generalize (st.advance c).dashCheck = s1 at h1 ⊢
+  split
+  · split
+    · exact noEof_of_toks h1 rfl
+    · exact h1
+  · split
+    · exact noEof_of_toks h1 rfl
+    · split
+      · unfold quote
+        split
+        · exact add_noEof (noEof_of_toks h1 rfl) (by simp)
+        · exact noEof_of_toks h1 rfl
+      · split
+        · exact noEof_of_toks h1 rfl
+        · exact classify_noEof o (st := { s1 with esc := false }) (noEof_of_toks h1 rfl) _ c
+
+theorem flush_noEof (o : Oracles) {st st' : St} (h : NoEof st) (hf : flush o st = .run st') : NoEof st' := by
+  unfold flush at hf
+  split at hf
+  · simp only [R.run.injEq] at hf; subst hf; exact h
+  · simp only [R.run.injEq] at hf; subst hf
+    have h0 : NoEof ({ st with pend := .none } : St) := noEof_of_toks h rfl
+    generalize ({ st with pend := .none } : St) = s0 at h0
+    unfold flushIdent
+    dsimp only
+    repeat' split
+    all_goals first
+      | exact add_noEof h0 (by simp)
+      | (unfold addKeyword; split <;> first | exact setLast_noEof h0 (by simp) | exact add_noEof h0 (by simp))
+  · have h0 : NoEof ({ st with pend := .none } : St) := noEof_of_toks h rfl
+    generalize ({ st with pend := .none } : St) = s0 at h0 hf
+    unfold flushNumber at hf
+    repeat' split at hf
+    all_goals first
+      | (simp only [R.run.injEq] at hf; subst hf; exact add_noEof h0 (by simp))
+      | cases hf
+
+theorem step_noEof (o : Oracles) {st st' : St} (h : NoEof st) (c : Char) (hs : step o st c = .run st') : NoEof st' := by
+  have fl : (flush o st).bind (fun st => .run (body o st c)) = .run st' → NoEof st' := by
+    intro hs
+    cases hf : flush o st with
+    | run s1 =>
+      rw [hf] at hs
+      simp only [R.bind_run, R.run.injEq] at hs
+      rw [← hs]; exact body_noEof o (flush_noEof o h hf) c
+    | fail l e => rw [hf] at hs; cases hs
+    | missing w => rw [hf] at hs; cases hs
+  unfold step at hs
+  split at hs
+  · simp only [R.run.injEq] at hs
+    rw [← hs]; exact body_noEof o h c
+  · split at hs
+    · simp only [R.run.injEq] at hs
+      rw [← hs]; exact noEof_of_toks h rfl
+    · exact fl hs
+  · split at hs
+    · simp only [R.run.injEq] at hs
+      rw [← hs]; exact noEof_of_toks h rfl
+    · split at hs
+      · split at hs
+        · cases hs
+        · simp only [R.run.injEq] at hs
+          rw [← hs]; exact noEof_of_toks h rfl
+      · exact fl hs
+
+theorem run_noEof (o : Oracles) (text : List Char) : ∀ {st st' : St}, NoEof st → run o st text = .run st' → NoEof st' := by
+  induction text with
+  | nil => intro st st' h hr; simp only [run_nil, R.run.injEq] at hr; rw [← hr]; exact h
+  | cons c cs ih =>
+    intro st st' h hr
+    rw [run_cons] at hr
+    cases hs : step o st c with
+    | run s1 => rw [hs] at hr; exact ih (step_noEof o h c hs) hr
+    | fail l e => rw [hs] at hr; cases hr
+    | missing w => rw [hs] at hr; cases hr
+
+/-- **`End` is the last token and only the last**: the answer of the tokenizer is `init ++ [End]` with no `End` in
+`init` -/
+theorem tokenize_init_noEof (o : Oracles) (text : List Char) (init : List PTok) (last : PTok)
+    (h : tokenize o text = .ok (init ++ [last])) : last.tok = .eof ∧ ∀ t ∈ init, t.tok ≠ .eof := by
+  rw [tokenize_eq] at h
+  cases hr : run o {} text with
+  | fail l e => rw [hr] at h; cases h
+  | missing w => rw [hr] at h; cases h
+  | run st =>
+    rw [hr] at h
+    simp only [R.bind_run] at h
+    unfold finish at h
+    cases hf : flush o st with
+    | fail l e => rw [hf] at h; cases h
+    | missing w => rw [hf] at h; cases h
+    | run st' =>
+      rw [hf] at h
+      simp only [R.bind_run, answer, Result.ok.injEq] at h
+      have hn : NoEof st' := flush_noEof o (run_noEof o text (by intro t ht; cases ht) hr) hf
+      have hc : ∃ rest, st'.close.toks = ⟨⟨st'.line, st'.start⟩, .eof⟩ :: rest ∧ ∀ t ∈ rest, t.tok ≠ .eof := by
+        by_cases hd : st'.lastTok = some dashDash
+        · exact ⟨_, close_toks_of_dash hd, fun t ht => hn t (List.mem_of_mem_tail ht)⟩
+        · exact ⟨_, close_toks_of_noDash hd, hn⟩
+      obtain ⟨rest, hrest, hne⟩ := hc
+      rw [hrest, List.reverse_cons] at h
+      have := List.append_inj' h rfl
+      obtain ⟨h1, h2⟩ := this
+      simp only [List.cons.injEq, and_true] at h2
+      refine ⟨by rw [← h2], ?_⟩
+      intro t ht
+      rw [← h1] at ht
+      exact hne t (List.mem_reverse.mp ht)
+
 end Sqlgrep.Lex
